@@ -476,7 +476,45 @@ def r13(ctx):
         raise AnalysisBroken('C06.R13: only %d century sites found in writeSymbols' % n)
 
 
+def r14(ctx):
+    ctx.rule('C06.R14', 'the numbers a value list field prints are the keys its writer looks up: ValueListDataField::writeSymbols '
+             'parses a number as unsigned (strtoul, no sign accepted) and looks it up as key; so everything '
+             'ValueListDataField::readSymbols prints comes from its own operator<< on the unsigned raw value, the entry of the '
+             'list or a literal - the output stream is handed to no other function (a signed rendering by the number type '
+             'could not be written back)', minimum=8)
+    fb = ctx.fb
+    fn = fb.fn('ebusd::ValueListDataField::readSymbols')
+    ctx.touch(fn)
+    outp = fn.P(3)
+    raw = fn.outarg('DataType::readRawValue', 3)
+    if raw is None:
+        raise AnalysisBroken('C06.R14: the raw value of ValueListDataField::readSymbols was not recognised')
+    n = 0
+    for c in fn.calls():
+        v = fn.nodes[c]
+        args = v.get('args', [])
+        keys = [fn.key(a) for a in args]
+        if not any(k in (outp, '*' + outp) for k in keys):
+            continue
+        n += 1
+        isop = v['k'] == 'CXXOperatorCallExpr' and v.get('op') == '<<'
+        ctx.ob('C06.R14', fn, c, isop, 'use of the output stream', 'by operator<< of this function: %s (callee %s)' % (isop, v.get('callee')))
+    for c in fn.calls():
+        v = fn.nodes[c]
+        if v['k'] != 'CXXOperatorCallExpr' or v.get('op') != '<<' or len(v.get('args', [])) != 2:
+            continue
+        a = fn.nodes[fn.strip(v['args'][1], casts=True)]
+        t = a.get('t') or ''
+        if a.get('k') == 'DeclRefExpr' and a.get('rk') in ('local', 'param') and a.get('w') and not a.get('bool') and 'char' not in t:
+            n += 1
+            ok = fn.key(v['args'][1]) == raw and not a.get('sg')
+            ctx.ob('C06.R14', fn, c, ok, 'number printed', 'the unsigned raw value %s itself: %s' % (raw, ok))
+    if n < 8:
+        raise AnalysisBroken('C06.R14: only %d output operations recognised in ValueListDataField::readSymbols' % n)
+
+
 def run(ctx):
+    r14(ctx)
     r13(ctx)
     r10(ctx)
     boundary_rule(ctx, 'C06.R9')
